@@ -655,4 +655,62 @@ example : buildFromBuilder? kZ ⟨some 0, none, none⟩ [pZ] = some [(0, 113), (
 example : buildFromBuilder? kZ ⟨none, none, none⟩ [pZ] = some [] := by decide
 example : buildFromBuilder? kZ ⟨some 1, some [.b], none⟩ [pZ] = some [(0, 186)] := by decide
 
+/-! ### positional isomers -/
+
+theorem sum_take_succ_of_get (l : List α) (j : Nat) (x : α) (h : l[j]? = some x) :
+    (l.take (j + 1)).sum = (l.take j).sum + x := by
+  rw [List.take_add_one, h]
+  simp [List.sum_append]
+
+/-- **C09.isomer_ions_differ** — sequence and mass do not identify a peptide form. Let `p`, `p'` have the
+    same residues, the same N-terminal modification and the same mass, let their modification vectors
+    agree before position `j` and differ at `j` (values `a ≠ a'`), and let `j` not be the last residue
+    (`j + 1 < n`, so every series has a value at position `j`). Then for EVERY kind the `j`-th value of
+    the series differs between the two forms: the b/a/c ions of ordinal `j+1` and the y/x/z ions of
+    ordinal `n−1−j`. (Two forms of equal total mass that differ at all differ at some `j < n − 1`.)
+    So whenever `min_ion_index` keeps that ordinal, the fragments stored for the two forms differ,
+    and ions computed for one isomer must not be filed under the other. -/
+theorem isomer_ions_differ (k : Consts α) (kind : Kind) (p p' : Pep α) (j : Nat) (a a' : α)
+    (hres : p'.residues = p.residues) (hnt : p'.nterm = p.nterm) (hmass : p'.mass = p.mass)
+    (hagree : ∀ t, t < j → p'.mods[t]? = p.mods[t]?)
+    (ha : p.mods[j]? = some a) (ha' : p'.mods[j]? = some a') (hne : a ≠ a')
+    (hp : panics p = false) (hp' : panics p' = false) (hj : j + 1 < p.residues.length) :
+    (ions k kind p)[j]? ≠ (ions k kind p')[j]? := by
+  obtain ⟨r, hr⟩ : ∃ r, p.residues[j]? = some r := ⟨p.residues[j]'(by omega), List.getElem?_eq_getElem (by omega)⟩
+  have hm : (masses p)[j]? = some (r + a) := by simp [masses, List.getElem?_zipWith, hr, ha]
+  have hm' : (masses p')[j]? = some (r + a') := by simp [masses, List.getElem?_zipWith, hres, hr, ha']
+  have htake : (masses p').take j = (masses p).take j := by
+    apply List.ext_getElem?
+    intro t
+    simp only [List.getElem?_take]
+    split
+    · rename_i ht
+      simp [masses, List.getElem?_zipWith, hres, hagree t ht]
+    · rfl
+  have hstart : start k kind p' = start k kind p := by
+    cases kind <;> simp [start, hnt, hmass]
+  rw [ion_closed k kind p hp j hj, ion_closed k kind p' hp' j (by rw [hres]; exact hj),
+    sum_take_succ_of_get _ j _ hm, sum_take_succ_of_get _ j _ hm', htake, hstart]
+  intro h
+  simp only [Option.some.injEq] at h
+  apply hne
+  cases hk : kind.isN <;> simp only [hk, ↓reduceIte, Bool.false_eq_true] at h
+  · have h2 := sub_right_injective h
+    exact add_left_cancel (add_left_cancel h2)
+  · exact add_left_cancel (add_left_cancel (add_left_cancel h))
+
+/-- M[+16]AM and MAM[+16] (ℤ stand-ins: M = 131, A = 71, water 18): same sequence, same mass 367,
+    different fragments in every series -/
+def isoA : Pep Int := ⟨[131, 71, 131], [16, 0, 0], 0, 0, 367⟩
+def isoB : Pep Int := ⟨[131, 71, 131], [0, 0, 16], 0, 0, 367⟩
+example : WellFormed 18 isoA ∧ WellFormed 18 isoB :=
+  ⟨⟨by decide, by decide, by decide⟩, ⟨by decide, by decide, by decide⟩⟩
+example : ions kZ .b isoA = [147, 218] ∧ ions kZ .b isoB = [131, 202] ∧
+    ions kZ .y isoA = [220, 149] ∧ ions kZ .y isoB = [236, 165] := by decide
+example (kind : Kind) : (ions kZ kind isoA)[0]? ≠ (ions kZ kind isoB)[0]? :=
+  isomer_ions_differ kZ kind isoA isoB 0 16 0 rfl rfl rfl (by intro t ht; omega) (by decide) (by decide)
+    (by decide) (by decide) (by decide) (by decide)
+example : buildFromBuilder? kZ ⟨some 0, none, none⟩ [isoA, isoB] =
+    some [(0, 147), (0, 218), (0, 220), (0, 149), (1, 131), (1, 202), (1, 236), (1, 165)] := by decide
+
 end Sage.C09
